@@ -269,3 +269,49 @@ def c03_combined_warm(e):
             return False
     # the operands still render as themselves afterwards
     return check_stream([Segment("w", a), Segment("v", b)], system, False, True, False)
+
+
+# --- a console whose file is replaced: terminal-only codes follow the CURRENT file (P) ------------------------------------------
+class _Tty(io.StringIO):
+    def isatty(self):
+        return True
+
+
+@symx("C03-file-switch", timeout=600, kind="P", functions=F_R + ["rich/console.py:Console.is_terminal", "rich/console.py:Console.control",
+                                                                "rich/console.py:Console.file"],
+      bounds="a console (colour system fixed to truecolor, terminal detection left to the file) whose file is a terminal or not, used "
+             "for two operations from {styled print, control(clear line), bell, show_cursor(False), is_terminal read}, then its "
+             "file is replaced by one of the other kind and two more operations follow: after the switch the new file receives "
+             "control codes exactly when IT is a terminal, and the visible text in both files is what was printed "
+             "(solver-enumerated, native)")
+def c03_file_switch(e):
+    first_tty = bool(e.mkbool("first_is_terminal"))
+    f1 = _Tty() if first_tty else io.StringIO()
+    f2 = io.StringIO() if first_tty else _Tty()
+    c = Console(file=f1, color_system="truecolor", width=40, legacy_windows=False, _environ={})
+    from rich.control import Control
+
+    def op(k):
+        if k == 0:
+            c.print("x", style="bold red")
+            return "x\n"
+        if k == 1:
+            c.control("\x1b[2K")
+        elif k == 2:
+            c.bell()
+        elif k == 3:
+            c.show_cursor(False)
+        else:
+            c.is_terminal
+        return ""
+    text1 = op(int(e.mk("op0", 0, 4))) + op(int(e.mk("op1", 0, 4)))
+    c.file = f2
+    ks = [int(e.mk("op2", 0, 4)), int(e.mk("op3", 0, 4))]
+    text2 = op(ks[0]) + op(ks[1])
+    d1, d2 = termmodel.sgr_decode(f1.getvalue()), termmodel.sgr_decode(f2.getvalue())
+    if d1.text != text1 or d2.text != text2:
+        return False
+    second_tty = not first_tty
+    wants_control = any(k in (1, 2, 3) for k in ks)
+    has_control = bool(d2.controls)
+    return has_control == (second_tty and wants_control)
